@@ -85,6 +85,10 @@ int main(int argc, char** argv) {
       FILE* f = fopen(replay.c_str(), "rb"); bytes.clear(); int ch; while (f && (ch = fgetc(f)) != EOF) bytes += (char)ch; if (f) fclose(f);
       binary = bytes.size() > 10 && !bytes.compare(4, 6, "binary");
     }
+    if (A.has("--dump-dir")) {     // corpus for the libFuzzer tier: 3 header bytes (declared sizes, policy) + the file
+      std::string hd; hd += (char)(h.hdr.num_vars % 16); hd += (char)(h.hdr.num_algebraic_cons % 16); hd += (char)h.policy;
+      write_file(A.get("--dump-dir", ".") + "/c" + std::to_string(c), hd + bytes); vf::J j; j.i("case", c); vf::emit(j); continue;
+    }
     if (!write_file(path, bytes)) { fprintf(stderr, "harness: cannot write %s\n", path); return 3; }
     mp::NLUtils utils;
     int code = -100; std::string emsg, exc;
